@@ -74,6 +74,21 @@ try:
             out['repeat:%s/%s' % (method, cm)] = ids == [lex[k, 'lingpyid'] for k in sorted(lex._data)]
         except Exception as ex:  # noqa
             out['ids:%s/%s' % (method, cm)] = 'raised ' + type(ex).__name__
+    # analyses that read the segments, repeated after analyses that align words of the same object (distances by alignment,
+    # pairwise alignments of two languages): the stored segments must be what they were
+    try:
+        lex.cluster(method='edit-dist', cluster_method='upgma', threshold=0.55, ref='customid', override=True)
+        ed1 = [lex[k, 'customid'] for k in sorted(lex._data)]
+        tk1 = [list(lex[k, 'tokens']) for k in sorted(lex._data)]
+        lex.get_distances(method='sca')
+        langs = list(lex.cols)
+        lex.align_pairs(langs[0], langs[1], pprint=False)
+        lex.align_pairs(langs[0], langs[-1], method='sca', pprint=False)
+        lex.cluster(method='edit-dist', cluster_method='upgma', threshold=0.55, ref='lingpyid', override=True)
+        out['repeat:edit-dist clustering after alignment-based analyses'] = ed1 == [lex[k, 'lingpyid'] for k in sorted(lex._data)]
+        out['repeat:segments after alignment-based analyses'] = tk1 == [list(lex[k, 'tokens']) for k in sorted(lex._data)]
+    except Exception as ex:  # noqa
+        out['note:alignment-based repetition raised ' + type(ex).__name__] = True
     # the other way of building the random distribution: Markov-generated pseudo-words
     try:
         random.seed(4321)
